@@ -197,3 +197,13 @@ Definition d_values (n m : N) (pcp prv : list N) (pnz : list dy) (acp arv : list
 Definition c_values n m pcp prv pnz acp arv anz shapes kcp krv knz mp ds hs hb eps static_reg ldl : N :=
   if N.eqb (d_values n m pcp prv pnz acp arv anz shapes kcp krv knz mp ds hs hb eps static_reg ldl) 0
   then 0%N else 1%N.
+
+(** right after an identity reset the cones must apply H = I (H = 0 for a zero cone), to [tol]
+    (the PSD cone's scaled-vector form multiplies and divides by sqrt 2: one ulp) *)
+Definition c_hident (zero_flags : list bool) (hb : list (list (list dy))) : N :=
+  ofb ((length zero_flags =? length hb)
+       && forallb (fun zb : bool * list (list dy) =>
+            forallb (fun jc : nat * list dy => forallb (fun iv : nat * dy =>
+                       dleb (dabs (dsub (snd iv) (if fst zb then d0 else if fst iv =? fst jc then d1 else d0))) tol)
+                     (indexed (snd jc))) (indexed (snd zb)))
+          (combine zero_flags hb)).
